@@ -179,8 +179,8 @@ impl Prop for C09Peer {
         match (tier, cfg!(debug_assertions)) {
             (Tier::Quick, true) => 300_000,
             (Tier::Quick, false) => 100_000,
-            (Tier::Thorough, true) => 10_000_000,
-            (Tier::Thorough, false) => 4_000_000,
+            (Tier::Thorough, true) => 40_000_000,
+            (Tier::Thorough, false) => 16_000_000,
         }
     }
     fn gen(&self, rng: &mut Rng, _tier: Tier) -> PeerCase {
